@@ -5,6 +5,7 @@ import (
 	"encoding/json"
 	"fmt"
 	"go/types"
+	"os"
 	"sort"
 	"strings"
 
@@ -249,6 +250,7 @@ type LoopStep struct {
 	Next   map[*ssa.Phi]Val // value on the back edge after one iteration
 	Cond   Bit              // condition under which the body is entered
 	Ret    Val              // function result when the loop is left from this state
+	Back   []*State         // memory at the end of each live back-edge block
 }
 
 // AnalyzeLoop evaluates the first top-level loop of fn once from a symbolic
@@ -351,10 +353,19 @@ func AnalyzeLoop(P *Program, fn *ssa.Function, opts *AnalyzeOpts) (*LoopStep, er
 	// one of them is taken; the edge conditions are mutually exclusive, so the
 	// next value of a header phi is the mux over them
 	ls.Cond = U.B0
+	for _, b := range back {
+		ls.Back = append(ls.Back, f.out[b.Index])
+	}
 	for i := len(back) - 1; i >= 0; i-- {
 		ec := band(f.chain(back[i], H), f.bc[edgeKey{back[i].Index, H.Index}])
 		for _, phi := range ls.Phis {
+			saved := f.cur
+			f.cur = back[i] // the facts of the back-edge block hold along its edge
 			v := f.val(phi.Edges[predIndex(H, back[i])])
+			f.cur = saved
+			if os.Getenv("VERIF_DBG_LOOP") != "" {
+				fmt.Fprintf(os.Stderr, "back edge %d->%d phi %s = %s under %s\n", back[i].Index, H.Index, phi.Comment, showVal(v), ec)
+			}
 			if prev, ok := ls.Next[phi]; ok {
 				v = in.muxVal(ec, v, prev)
 			}
